@@ -13,7 +13,7 @@ Stages (see design_notes/C12.md):
      "reduced file" runs (the file with only objective k must yield the same event log as
      objno=k on the full file) and text-vs-binary log identity
 """
-import os, sys, json, re, struct, subprocess, hashlib, shutil
+import os, sys, json, re, struct, subprocess, hashlib, shutil, glob
 from fractions import Fraction as F
 from concurrent.futures import ThreadPoolExecutor
 from common import *
@@ -191,6 +191,7 @@ class FileView:
         self.exprs = {0: None}  # token -> expression tree (NL variable positions)
         self.stream = []        # ('O', idx, ismax, tok) | ('G', idx, [(v, coefF)]) | ('X',)
         self.defvars = {}       # index -> expression tree (linear part + nonlinear part)
+        self.objsuffix = {}     # suffix name -> {file objective index: value}
         for s in self.segs:
             h = s[0]
             if h[0] == 'V':
@@ -224,6 +225,10 @@ class FileView:
                 self.stream.append(('G', int(a[0]), terms))
             else:
                 self.stream.append(('X',))
+                if h[0] == 'S':
+                    a = h[1:].split()
+                    if int(a[0]) & 3 == 2:
+                        self.objsuffix[a[2]] = {int(ln.split()[0]): F(ln.split()[1]) for ln in s[1:]}
                 if h[0] == 'b':
                     self.bounds = []
                     for ln in s[1:]:
@@ -329,6 +334,10 @@ def text_to_binary(text):
             out.extend(c.encode() + I(a[0]))
             for ln in s[1:]:
                 p = ln.split(); out.extend(I(p[0]) + D(p[1]))
+        elif c == 'S':
+            out.extend(b'S' + I(a[0]) + I(a[1]) + I(len(a[2])) + a[2].encode())
+            for ln in s[1:]:
+                p = ln.split(); out.extend(I(p[0]) + (D(p[1]) if int(a[0]) & 4 else I(p[1])))
         else:
             raise ValueError('segment %s not supported by the transcoder' % c)
     return bytes(out)
@@ -418,6 +427,8 @@ def reduce_to(text, f):
     nonlinear = False
     for s in segs:
         c = s[0][0]
+        if c == 'S' and int(s[0][1:].split()[0]) & 3 == 2:
+            continue                      # objective suffixes are indexed by file objective; not used in single mode
         if c in 'OG':
             a = s[0][1:].split()
             if int(a[0]) != f:
@@ -562,9 +573,17 @@ def sol_objno(sol):
 
 
 # ----------------------------------------------------------------------------- a case
+# per-case variations outside the option list the model sees:
+#   names: value of cvt:names (None = not given);  files: which of .row/.col exist ('full', 'short' = .row ends after the
+#   first objective name, 'norow' = .col only, 'nofiles');  nsol: alternative solutions reported (sol:stub files, each with an
+#   objno line);  solcount: sol:count=1 (nsol suffixes in the final .sol);  optfile: (a, b) -> argv[a:b] go through tech:optionfile
+DEFAULT_EXTRA = {'names': None, 'files': 'full', 'nsol': 0, 'solcount': False, 'optfile': None, 'nostub': False, 'solvec': False}
+
+
 class Case:
     def __init__(self, cid, text, binary, row, col, optlist, envopts, argv, quadobj, note, mutation, model=None,
-                 mpopts=None, ampl=True):
+                 mpopts=None, ampl=True, extra=None):
+        self.extra = dict(DEFAULT_EXTRA, **(extra or {}))
         self.cid, self.text, self.binary, self.row, self.col = cid, text, binary, row, col
         self.optlist, self.envopts, self.argv, self.quadobj = optlist, envopts, argv, quadobj
         self.note, self.mutation, self.model = note, mutation, model
@@ -573,29 +592,68 @@ class Case:
     def replay_obj(self):
         return {'nl_text': self.text, 'binary_format': self.binary, 'row': self.row, 'col': self.col,
                 'options_in_order': self.optlist, 'env_mp_options': self.mpopts, 'env_recsolver_options': self.envopts,
-                'argv_options': self.argv, 'ampl_flag': self.ampl,
+                'argv_options': self.argv, 'ampl_flag': self.ampl, 'extra': self.extra,
                 'RECSOLVER_QUADOBJ': self.quadobj, 'RECSOLVER_ACCEPT': 'ALL', 'stream': self.note,
                 'how': './check C12 --replay <this file>   (writes the stub under build/c12/replay and runs harness/recsolver on it)'}
 
 
-def write_stub(stub, text, binary, row, col):
+def row_as_written(row, files, num_cons):
+    """the names the driver can read from the .row file in this file mode"""
+    rowl = [l for l in row.split('\n') if l != '']
+    if files == 'full':
+        return rowl
+    if files == 'short':
+        return rowl[:num_cons + 1]
+    return []
+
+
+def write_stub(stub, text, binary, row, col, files='full', num_cons=0):
     if binary:
         open(stub + '.nl', 'wb').write(text_to_binary(text))
     else:
         open(stub + '.nl', 'w').write(text)
-    open(stub + '.row', 'w').write(row)
-    open(stub + '.col', 'w').write(col)
+    for ext in ('.row', '.col'):
+        if os.path.exists(stub + ext):
+            os.remove(stub + ext)
+    if files in ('full', 'short'):
+        open(stub + '.row', 'w').write('\n'.join(row_as_written(row, files, num_cons)) + '\n')
+    if files != 'nofiles':
+        open(stub + '.col', 'w').write(col)
 
 
 def run_case(exe, wdir, c, suffix=''):
     stub = os.path.join(wdir, 'c%s%s' % (c.cid, suffix))
-    write_stub(stub, c.text, c.binary, c.row, c.col)
+    x = c.extra
+    hc = header_counts(split_nl(c.text)[0])
+    write_stub(stub, c.text, c.binary, c.row, c.col, x['files'], hc['ncons'] + hc['nlcons'])
     env = {'recsolver_options': c.envopts} if c.envopts is not None else {}
     env[os.path.basename(exe) + '_options'] = c.envopts or ''
     env['mp_options'] = c.mpopts or ''
-    argv = list(c.argv) if c.ampl else ['wantsol=1'] + list(c.argv)
+    argv = list(c.argv)
+    if x['optfile']:
+        a, b = x['optfile']
+        open(stub + '.opt', 'w').write('# option file written by checks/c12.py\n' + '\n'.join(argv[a:b]) + '\n\n')
+        argv = argv[:a] + ['tech:optionfile=' + stub + '.opt'] + argv[b:]
+    if x['names'] is not None:
+        argv.append('%s=%d' % ('cvt:names' if c.cid % 2 else 'names', x['names']))
+    if x['nsol']:
+        env['RECSOLVER_NSOL'] = str(x['nsol'])
+        if x['solvec']:
+            env['RECSOLVER_NSOL_VECTORS'] = '1'
+        if not x['nostub']:
+            argv.append('sol:stub=' + stub + '_alt')
+        if x['solcount'] or x['nostub']:
+            argv.append('sol:count=1')       # nostub: solutions are counted but no files are written
+    if not c.ampl:
+        argv = ['wantsol=1'] + argv
     r = recsolver.run(exe, stub, argv, accept='ALL', quadobj=c.quadobj, env=env, timeout=120, ampl_flag=c.ampl)
-    for ext in ('.nl', '.row', '.col', '.sol', '.reclog'):
+    r['alt'] = []
+    for k in range(1, x['nsol'] + 3):
+        f = '%s_alt%d.sol' % (stub, k)
+        if os.path.exists(f):
+            r['alt'].append(sol_objno(open(f, errors='replace').read()))
+            os.remove(f)
+    for ext in ('.nl', '.row', '.col', '.sol', '.reclog', '.opt'):
         try:
             os.remove(stub + ext)
         except OSError:
@@ -620,11 +678,11 @@ def expected_from_options(optlist, n):
     if k_given is not None and k_given > n:
         return ('err', 'objnoOutOfRange')
     if multi and k_given is None:
-        return ('ok', list(range(n)), 0 if n > 0 else -1)
+        return ('ok', list(range(n)), 0 if n > 0 else -1, True)
     k = 1 if k_given is None else k_given
     if 1 <= k <= n:
-        return ('ok', [k - 1], k - 1)
-    return ('ok', [], -1)
+        return ('ok', [k - 1], k - 1, False)
+    return ('ok', [], -1, False)
 
 
 def points(rng, bounds, cnt):
@@ -648,7 +706,18 @@ def judge(ck, c, r, mline, stats, rng):
     exp = expected_from_options(c.optlist, fv.n)
     if exp[0] == 'ok' and fv.bad_index():
         exp = ('err', 'readError')
-    rowl = [l for l in c.row.split('\n') if l != '']
+    rowl = row_as_written(c.row, c.extra['files'], fv.num_cons)
+    nmode = 1 if c.extra['names'] is None else c.extra['names']
+    have_names = nmode >= 2 or (nmode == 1 and c.extra['files'] != 'nofiles')
+
+    def name_of_row_index(i):
+        """name the driver must give to the objective whose .row position is i (cvt:names semantics: 0 none, 1 only if name
+        files exist, 2 read or generate, 3 generate); generated names carry the objective's number in the file"""
+        if nmode == 0 or not have_names:
+            return ''
+        if nmode != 3 and 0 <= i < len(rowl):
+            return rowl[i]
+        return '_sobj[%d]' % (i - fv.num_cons + 1)
     nviol0 = len(ck.violations) + len(ck.known_hits)
     okey = cls[0] + ':' + str(cls[1]).split(':')[0]
     stats['outcome'][okey] = stats['outcome'].get(okey, 0) + 1
@@ -656,7 +725,13 @@ def judge(ck, c, r, mline, stats, rng):
     rep['impl_outcome'] = list(cls)
     rep['model_line'] = mline
     if cls[0] == 'crash':
-        ck.add_violation('run:abnormal-termination', 'recsolver ended abnormally: %s' % cls[1], rep)
+        sig = 'run:abnormal-termination'
+        # the problem has no objective slot: file without objectives, or an option error raised before the header is processed
+        if (fv.n == 0 or exp[0] == 'err') and (c.extra['nsol'] or c.extra['solcount']) and r['rc'] in (-11, 139):
+            # HandleSolution writes element 0 of the (empty) objective suffix nsol/npool
+            sig = 'run:crash-nsol-suffix-without-objective'
+        ck.add_violation(sig, 'recsolver ended abnormally on a file with %d objectives, options %s, sol:stub/sol:count %s: %s' %
+                         (fv.n, c.optlist, 'given' if (c.extra['nsol'] or c.extra['solcount']) else 'not given', cls[1]), rep)
         return 'crash'
     # ---- oracle: outcome class
     if cls[0] == 'err':
@@ -715,11 +790,30 @@ def judge(ck, c, r, mline, stats, rng):
             if bad:
                 ck.add_violation('select:content', 'delivered objective %d differs from objective %d of the file: at x=%s it evaluates to %s, the file objective to %s' % (p, f + 1, [str(v) for v in bad[0]], bad[1], bad[2]), rep)
             stats['objkind'][e['kind']] = stats['objkind'].get(e['kind'], 0) + 1
-            want_name = rowl[fv.num_cons + f] if fv.num_cons + f < len(rowl) else None
-            if want_name is not None and e['name'] != want_name:
+            want_name = name_of_row_index(fv.num_cons + f)
+            if e['name'] != want_name:
                 ck.add_violation('name:' + suffix, 'delivered objective %d is named "%s", objective %d of the file is "%s"' % (p, e['name'], f + 1, want_name), rep)
     if echo != exp_echo:
         ck.add_violation('echo:' + suffix, 'options %s, %d objectives%s: .sol says objno %s, the objective used is %s' % (c.optlist, fv.n, ' (objective %s has no O segment)' % [f + 1 for f in noO] if noO else '', echo, exp_echo), rep)
+    # alternative-solution files (HandleFeasibleSolution): same echo in each of them
+    if c.extra['nsol']:
+        stats['altsol_files'] = stats.get('altsol_files', 0) + len(r['alt'])
+        if len(r['alt']) != (0 if c.extra['nostub'] else c.extra['nsol']):
+            ck.add_violation('altsol:count', '%d alternative solutions reported, %d solution files written' % (c.extra['nsol'], len(r['alt'])), rep, found_input=False)
+        for a in r['alt']:
+            if a != exp_echo:
+                ck.add_violation('echo:alternative-solution-file', 'options %s, %d objectives: an alternative-solution .sol file says objno %s, the objective used is %s' % (c.optlist, fv.n, a, exp_echo), rep)
+    # objective suffixes reach the backend only in multi-objective mode, one value per file objective in file order
+    for sname, ev in (('objpriority', 'objpriorities'), ('objweight', 'objweights')):
+        got = [e['v'] for e in r['log'] if e.get('ev') == ev]
+        vals = fv.objsuffix.get(sname)
+        if exp[3] and fv.n > 0 and vals:
+            want = [vals.get(f, F(0)) for f in range(fv.n)]
+            stats['objsuffix_checked'] = stats.get('objsuffix_checked', 0) + 1
+            if len(got) != 1 or [recsolver.num(str(t)) if not isinstance(t, int) else F(t) for t in got[0]] != want:
+                ck.add_violation('suffix:multiobj-%s' % sname, 'multi-objective mode: suffix %s of the file objectives is %s, the backend received %s' % (sname, [str(v) for v in want], got), rep)
+        elif got and not exp[3]:
+            ck.add_violation('suffix:single-mode-%s' % sname, 'single-objective mode but the backend received %s %s' % (ev, got), rep)
     for e in d.defs:
         stats['auxcon'][e['type']] = stats['auxcon'].get(e['type'], 0) + 1
     # ---- correspondence with the Lean model
@@ -733,12 +827,12 @@ def judge(ck, c, r, mline, stats, rng):
         m_echo = int(mhead[1].split('=')[1])
         m_names = [int(t) for t in mhead[2].split('=')[1].split(',') if t]
         m_n = int(mhead[3].split('=')[1])
-        if m_echo != echo:
-            ok, why = False, 'echo: model %s, implementation %s' % (m_echo, echo)
+        if m_echo != echo or any(a != m_echo for a in r.get('alt', [])):
+            ok, why = False, 'echo: model %s, implementation %s %s' % (m_echo, echo, r.get('alt', []))
         elif m_n != len(d.objs):
             ok, why = False, 'number of objectives: model %d, implementation %d' % (m_n, len(d.objs))
         else:
-            exp_names = [rowl[i] if 0 <= i < len(rowl) else '_sobj[%d]' % (i - fv.num_cons + 1) for i in m_names]
+            exp_names = [name_of_row_index(i) for i in m_names]
             if exp_names != names_impl:
                 ok, why = False, 'names: model %s, implementation %s' % (exp_names, names_impl)
             for p, part in enumerate(mparts[1:]):
@@ -770,6 +864,28 @@ def judge(ck, c, r, mline, stats, rng):
 
 
 # ----------------------------------------------------------------------------- plan
+def gen_extra(rng, argv, stats):
+    x = {}
+    r = rng.below(100)
+    if r < 30:
+        x['names'] = rng.choice([0, 2, 3, 3, 2, 1])
+    r = rng.below(100)
+    if r < 28:
+        x['files'] = rng.choice(['short', 'norow', 'nofiles', 'short'])
+    if rng.chance(1, 7):
+        x['nsol'] = rng.rint(1, 2)
+        x['solcount'] = rng.chance(1, 2)
+        x['nostub'] = rng.chance(1, 5)
+        x['solvec'] = rng.chance(1, 2)
+    if argv and rng.chance(1, 6):
+        a = rng.below(len(argv))
+        x['optfile'] = (a, a + 1 + rng.below(len(argv) - a))
+    for k, v in x.items():
+        key = '%s=%s' % (k, v if k != 'optfile' else 'yes')
+        stats['extra'][key] = stats['extra'].get(key, 0) + 1
+    return x
+
+
 def option_plans(rng, n, tier):
     """list of (optlist in application order, env string or None, argv list)"""
     plans = []
@@ -835,6 +951,8 @@ def corpus_cases():
     mk(2, two, [('m', 1)], 'corpus: multiobj')
     mk(2, two, [('m', 1), ('o', 2)], 'corpus: multiobj and objno')
     mk(2, two, [('o', 0)], 'corpus: objno=0')
+    mk(2, two[:6] + ['G2 1', '0 1'], [('o', 1)], 'corpus: G segment with an index beyond the objectives', 'badidx')
+    mk(2, ['O0 0', 'n0', 'O2 1', 'n2.5', 'G0 1', '0 1'], [], 'corpus: O segment with an index beyond the objectives', 'badidx')
     mk(0, [], [], 'corpus: no objective')
     mk(0, [], [('o', 1)], 'corpus: objno=1 of 0')
     mk(1, ['G0 1', '0 1'], [], 'corpus: objective with G segment only (regression for fixed finding C12-echo-noO)', 'dropO')
@@ -854,12 +972,16 @@ OBLIGATION_ORACLE = {
 }
 
 
-def gen_crosscheck(ck, drv, trdir):
+def gen_crosscheck(ck, drv, trdir, cov=False):
     """every generated definition (MpVerif.Gen.ObjFilter, evaluated by drv_c12) against the compiled function
     (harness/h_objfilter.cc, same named inputs) on a grid including the int boundaries"""
     sig = json.load(open(os.path.join(trdir, 'objfilter_sig.json')))
-    hobj = ck.objects([os.path.join(VERIF, 'harness', 'h_objfilter.cc')], flags=('-O1', '-g', '-fno-access-control'), tag='h')
-    hexe = ck.link('h_objfilter', hobj + ck.libmp_objects(flags=('-O1', '-g')))
+    if cov:
+        hobj = ck.objects([os.path.join(VERIF, 'harness', 'h_objfilter.cc')], flags=('-O0', '-g', '--coverage', '-fno-access-control'), tag='h')
+        hexe = ck.link('h_objfilter_cov', hobj + ck.libmp_objects(flags=('-O0', '-g', '--coverage')), flags=['--coverage'])
+    else:
+        hobj = ck.objects([os.path.join(VERIF, 'harness', 'h_objfilter.cc')], flags=('-O1', '-g', '-fno-access-control'), tag='h')
+        hexe = ck.link('h_objfilter', hobj + ck.libmp_objects(flags=('-O1', '-g')))
     K = [-INT_MAX, -5, -1, 0, 1, 2, 3, 4, 6, 8, INT_MAX]           # objno() values (INT_MIN excluded: objno()-1 is UB)
     IDX = [0, 1, 2, 3, 5, 7, INT_MAX]
     NH = [-1, 0, 1, 2, 3, 5, INT_MAX]
@@ -917,7 +1039,95 @@ def gen_crosscheck(ck, drv, trdir):
 
 
 # ----------------------------------------------------------------------------- main
+COVERAGE = os.environ.get('VERIF_COVERAGE') == '1'
+
+
+def model_arms(cases):
+    """which `if`/`match` arms of the Lean model functions (Model.lean) the case stream exercises; computed from the
+    case parameters with the same conditions as the model (setOpt, parseOpts, onHeader, resultingNObj, needObj,
+    resultingObjIndex, onSeg, objnoUsed, objRowIdx)"""
+    A = {}
+
+    def hit(k):
+        A[k] = A.get(k, 0) + 1
+    for k in ['setOpt.objno.neg', 'setOpt.objno.ok', 'setOpt.multi.bad', 'setOpt.multi.ok', 'parseOpts.nil', 'parseOpts.error', 'parseOpts.cons-ok',
+              'onHeader.parse-error', 'onHeader.out-of-range', 'onHeader.ok', 'resultingNObj.multi', 'resultingNObj.single k>0,n>0',
+              'resultingNObj.single k>0,n=0', 'resultingNObj.single k=0,n>0', 'resultingNObj.single k=0,n=0',
+              'needObj.multi', 'needObj.single.match', 'needObj.single.nomatch', 'resultingObjIndex.multi', 'resultingObjIndex.single',
+              'onSeg.O.bad-index', 'onSeg.O.kept', 'onSeg.O.skipped', 'onSeg.G.bad-index', 'onSeg.G.kept', 'onSeg.G.skipped', 'onSeg.other',
+              'readSegs.error', 'readSegs.nil', 'objnoUsed.optsRead.objAdded', 'objnoUsed.optsRead.not-added', 'objnoUsed.not-optsRead',
+              'objRowIdx.empty', 'objRowIdx.multi', 'objRowIdx.single', 'onHeader.objAdded.set', 'onHeader.objAdded.unset']:
+        A[k] = 0
+    for c in cases:
+        fv = FileView(c.text)
+        raw, mf, err = -1, False, False
+        hit('parseOpts.nil')
+        for kind, v in c.optlist:
+            if kind == 'o':
+                if v < 0:
+                    hit('setOpt.objno.neg'); err = True
+                else:
+                    hit('setOpt.objno.ok'); raw = v
+            else:
+                if v not in (0, 1):
+                    hit('setOpt.multi.bad'); err = True
+                else:
+                    hit('setOpt.multi.ok'); mf = v == 1
+            if err:
+                hit('parseOpts.error')
+                break
+            hit('parseOpts.cons-ok')
+        if err:
+            hit('onHeader.parse-error')
+            continue
+        k, spec, multi, n = abs(raw), raw >= 0, mf and raw < 0, fv.n
+        if k > n and spec:
+            hit('onHeader.out-of-range')
+            continue
+        hit('onHeader.ok')
+        if multi:
+            hit('resultingNObj.multi'); nobj = n
+        else:
+            hit('resultingNObj.single k%s,n%s' % ('>0' if k > 0 else '=0', '>0' if n > 0 else '=0')); nobj = 1 if (k > 0 and n > 0) else 0
+        hit('onHeader.objAdded.set' if nobj > 0 else 'onHeader.objAdded.unset')
+        bad = False
+        for sg in fv.stream:
+            if sg[0] == 'X':
+                hit('onSeg.other')
+                continue
+            if sg[1] >= n:
+                hit('onSeg.%s.bad-index' % sg[0]); hit('readSegs.error'); bad = True
+                break
+            if multi:
+                hit('needObj.multi'); need = True
+            else:
+                need = k - 1 == sg[1]
+                hit('needObj.single.match' if need else 'needObj.single.nomatch')
+            if need:
+                hit('resultingObjIndex.multi' if multi else 'resultingObjIndex.single')
+            hit('onSeg.%s.%s' % (sg[0], 'kept' if need else 'skipped'))
+        if bad:
+            continue
+        hit('readSegs.nil')
+        hit('objnoUsed.optsRead.objAdded' if nobj > 0 else 'objnoUsed.optsRead.not-added')
+        hit('objRowIdx.empty' if nobj == 0 else 'objRowIdx.multi' if multi else 'objRowIdx.single')
+    return A
+
+
+def build_cov_driver(ck):
+    flags = ('-O0', '-g', '--coverage')
+    srcs = [os.path.join(recsolver.RDIR, f) for f in ['recmain.cc', 'recmodelmgr.cc', 'recmodelapi.cc', 'recbackend.cc']]
+    objs = ck.objects(srcs, flags=flags, extra_inc=[recsolver.RDIR], tag='rec') + ck.libmp_objects(flags=flags)
+    for f in glob.glob(os.path.join(BUILD, 'obj', '*.gcda')):
+        os.remove(f)
+    return ck.link('recsolver_cov', objs, flags=['--coverage'])
+
+
 def run(ck):
+    if COVERAGE and 'VERIF_BUILD' not in os.environ:
+        # coverage mode works in its own build directory
+        env = dict(os.environ, VERIF_BUILD=os.path.join(VERIF, 'build', 'cov_c12'))
+        os.execve(sys.executable, [sys.executable, os.path.join(VERIF, 'check'), 'C12', '--tier', ck.tier], env)
     # 1. regenerate lean/MpVerif/Gen/ObjFilter.lean from the repository's source text (clang typed AST)
     gen = os.path.join(LEAN, 'MpVerif', 'Gen', 'ObjFilter.lean')
     trdir = os.path.join(BUILD, 'tr_c12')
@@ -937,7 +1147,7 @@ def run(ck):
         if bad:
             failing += ['leanchecker rejected %s' % m for m in bad]
             proof_ok = False
-    exe = recsolver.build(ck)
+    exe = build_cov_driver(ck) if COVERAGE else recsolver.build(ck)
     try:
         drv = ck.driver('drv_c12')
     except Exception as e:          # e.g. the generated module no longer compiles
@@ -955,7 +1165,7 @@ def run(ck):
     nfiles = 80 if ck.tier == 'quick' else 800
     maxobj = 4 if ck.tier == 'quick' else 6
     stats = {'outcome': {}, 'objkind': {}, 'auxcon': {}, 'cmp': 0, 'nobj_hist': {}, 'mutation': {}, 'format': {'text': 0, 'binary': 0},
-             'k_class': {}, 'multi': {}, 'channel': {}, 'reduced_runs': 0, 'text_vs_binary_runs': 0, 'expr_ops': {}}
+             'k_class': {}, 'multi': {}, 'channel': {}, 'extra': {}, 'reduced_runs': 0, 'text_vs_binary_runs': 0, 'expr_ops': {}}
     cases = []
     cid = 0
     for text, row, col, opts, note, mutation in corpus_cases():
@@ -980,6 +1190,14 @@ def run(ck):
                 text, mutation, note = t2, kind, desc
         stats['mutation'][mutation or 'none'] = stats['mutation'].get(mutation or 'none', 0) + 1
         n = len(m.objs)
+        if n >= 1 and rng.chance(1, 3):
+            # objective suffixes (used by the backend in multi-objective mode only), for a random subset of the objectives
+            for sname, kind in (('objpriority', 2), ('objweight', 6)):
+                if rng.chance(2, 3):
+                    sub = [f for f in range(n) if rng.chance(2, 3)] or [rng.below(n)]
+                    vals = ['%d %s' % (f, (str(rng.rint(1, 9)) if kind == 2 else nlgen.fnum(F(rng.rint(1, 40), 8)))) for f in sub]
+                    text += 'S%d %d %s\n' % (kind, len(sub), sname) + '\n'.join(vals) + '\n'
+                    stats['objsuffix_files'] = stats.get('objsuffix_files', 0) + 1
         stats['nobj_hist'][n] = stats['nobj_hist'].get(n, 0) + 1
         fmt = rng.below(10)
         formats = [False, True] if fmt < 2 else [True] if fmt < 5 else [False]
@@ -987,7 +1205,9 @@ def run(ck):
         for items, env, argv, mp, ampl in option_plans(rng, n, ck.tier):
             first = None
             for binary in formats:
-                c = Case(cid, text, binary, row, col, items, env, argv, quadobj, note, mutation, model=m, mpopts=mp, ampl=ampl); cid += 1
+                if first is None:
+                    xtra = gen_extra(rng, argv, stats)
+                c = Case(cid, text, binary, row, col, items, env, argv, quadobj, note, mutation, model=m, mpopts=mp, ampl=ampl, extra=xtra); cid += 1
                 cases.append(c)
                 if first is None:
                     first = c
@@ -995,7 +1215,8 @@ def run(ck):
                     extra_runs.append(('fmt', first, c))
             # reduced-file oracle for explicit single selections on regular files
             ex = expected_from_options(items, n)
-            if mutation in (None, 'shuffle', 'defvar') and ex[0] == 'ok' and len(ex[1]) == 1 and n >= 2 and rng.chance(1, 2):
+            plain_names = first.extra['names'] is None and first.extra['files'] == 'full'    # generated names carry the file index
+            if mutation in (None, 'shuffle', 'defvar') and ex[0] == 'ok' and len(ex[1]) == 1 and n >= 2 and plain_names and rng.chance(1, 2):
                 f = ex[1][0]
                 rrow = '\n'.join(row.split('\n')[:FileView(text).num_cons] + [row.split('\n')[FileView(text).num_cons + f]]) + '\n'
                 rc = Case(cid, reduce_to(text, f), first.binary, rrow, col, [], None, [], quadobj, 'reduced to objective %d' % (f + 1), mutation); cid += 1
@@ -1057,6 +1278,26 @@ def run(ck):
                 diff = next((i for i in range(min(len(la), len(lb))) if la[i] != lb[i]), min(len(la), len(lb)))
                 ck.add_violation('select:differs-from-single-objective-file', 'objno selection on the full file delivers a different model than the file reduced to that objective (first differing event %d)' % diff,
                                  dict(a.replay_obj(), reduced=b.replay_obj(), full_event=la[diff] if diff < len(la) else None, reduced_event=lb[diff] if diff < len(lb) else None))
+    if COVERAGE:
+        import c12_cov
+        merged = c12_cov.collect(os.path.join(BUILD, 'obj'))
+        rep = c12_cov.report(merged, REPO)
+        rep['stream'] = '%s tier, seed %d, %d cases + %d auxiliary runs' % (ck.tier, ck.seed, len(cases), len(extra_runs))
+        os.makedirs(os.path.join(VERIF, 'design_notes', 'coverage'), exist_ok=True)
+        json.dump(rep, open(os.path.join(VERIF, 'design_notes', 'coverage', 'C12_last.json'), 'w'), indent=1)
+        rep['model_arms'] = model_arms(cases)
+        md = c12_cov.markdown(rep, 'driver stream: ' + rep['stream'])
+        # secondary measurement: the grid harness (generated definitions vs compiled functions) added on top
+        if drv and translator_ok:
+            gen_crosscheck(ck, drv, trdir, cov=True)
+            rep2 = c12_cov.report(c12_cov.collect(os.path.join(BUILD, 'obj')), REPO)
+            rep['with_grid_harness'] = {k: rep2[k] for k in ('anchor_line_cov', 'anchor_branch_cov', 'mechanism_line_cov', 'mechanism_branch_cov', 'mechanism_totals')}
+            md += '\n' + c12_cov.markdown(rep2, 'driver stream + grid harness h_objfilter (498 points)')
+        md += '\n### model arms exercised by the stream\n\n| arm | cases |\n|---|---|\n' + '\n'.join('| %s | %d |' % kv for kv in sorted(rep['model_arms'].items())) + '\n'
+        json.dump(rep, open(os.path.join(VERIF, 'design_notes', 'coverage', 'C12_last.json'), 'w'), indent=1)
+        open(os.path.join(BUILD, 'coverage_report.md'), 'w').write(md)
+        ck.log('coverage: anchored files line %.1f%% branch %.1f%%; mechanism functions line %.1f%% branch %.1f%% -> design_notes/coverage/C12_last.json, %s' %
+               (rep['anchor_line_cov'], rep['anchor_branch_cov'], rep['mechanism_line_cov'], rep['mechanism_branch_cov'], os.path.join(BUILD, 'coverage_report.md')))
     # ---- thorough: a sample of the cases again under ASan/UBSan (slot index of kept segments, C12_index_in_range)
     if ck.tier == 'thorough':
         exe_san = recsolver.build(ck, flags=SAN_FLAGS, name='recsolver_asan')
@@ -1096,7 +1337,17 @@ def run(ck):
     ck.cov['distinct_nontrivial'] = distinct
     ck.cov['rule'] = 'distinct (NL file, format, option sequence) triples run through the real driver and compared with the Lean model and the oracle'
     ck.cov['exhaustive'] = False
-    ck.cov['generator_histogram'] = {k: stats[k] for k in ('outcome', 'objkind', 'auxcon', 'nobj_hist', 'mutation', 'format', 'k_class', 'multi', 'channel', 'expr_ops')}
+    ck.cov['generator_histogram'] = {k: stats[k] for k in ('outcome', 'objkind', 'auxcon', 'nobj_hist', 'mutation', 'format', 'k_class', 'multi', 'channel', 'extra', 'expr_ops')}
+    ck.cov['generator_histogram']['altsol_files_checked'] = stats.get('altsol_files', 0)
+    ck.cov['generator_histogram']['objsuffix_cases_checked'] = stats.get('objsuffix_checked', 0)
+    covf = os.path.join(VERIF, 'design_notes', 'coverage', 'C12_last.json')
+    if os.path.exists(covf):       # measured in the last VERIF_COVERAGE=1 run (not recomputed here)
+        cj = json.load(open(covf))
+        ck.cov['anchor_line_cov'] = cj['anchor_line_cov']
+        ck.cov['anchor_branch_cov'] = cj['anchor_branch_cov']
+        ck.cov['mechanism_line_cov'] = cj['mechanism_line_cov']
+        ck.cov['mechanism_branch_cov'] = cj['mechanism_branch_cov']
+        ck.cov['coverage_measured_on'] = cj.get('stream')
     ck.cov['reduced_file_runs'] = stats['reduced_runs']
     ck.cov['text_vs_binary_pairs'] = stats['text_vs_binary_runs']
     ck.log('histogram: ' + json.dumps(ck.cov['generator_histogram'], sort_keys=True))
@@ -1132,7 +1383,7 @@ def replay(ck, path):
     os.makedirs(wdir, exist_ok=True)
     c = Case(0, rp['nl_text'], rp['binary_format'], rp['row'], rp['col'], [tuple(t) for t in rp['options_in_order']],
              rp['env_recsolver_options'], rp['argv_options'], rp['RECSOLVER_QUADOBJ'], rp.get('stream', ''), 'replay',
-             mpopts=rp.get('env_mp_options'), ampl=rp.get('ampl_flag', True))
+             mpopts=rp.get('env_mp_options'), ampl=rp.get('ampl_flag', True), extra=rp.get('extra'))
     r = run_case(exe, wdir, c)
     ml = FileView(c.text).model_line(c.optlist)
     p = subprocess.run([drv], input=ml + '\n', capture_output=True, text=True)
